@@ -538,13 +538,11 @@ func checkCSV(out string, specs []ChunkSpec, e ExportSpec, delims []byte, header
 				return fail(err)
 			}
 		}
-		if !e.IncludeMeta {
-			continue
-		}
 		for _, k := range metaKeys {
-			if !e.allowed(k) {
-				continue
-			}
+			// a column that is there carries the chunk's value, whether the configuration asked for it or not
+			// (an empty meta_level next to a chunk of level 2 reads back as a record that disagrees with its chunk);
+			// it has to be there only if metadata is included and the include list admits the key
+			wanted := e.IncludeMeta && e.allowed(k)
 			isStd := false
 			for _, sc := range stdCols {
 				if sc == k {
@@ -557,7 +555,7 @@ func checkCSV(out string, specs []ChunkSpec, e ExportSpec, delims []byte, header
 			v := s.metaValue(k)
 			ci, ok := col["meta_"+k]
 			if !ok {
-				if isZero(v) {
+				if !wanted || isZero(v) {
 					continue
 				}
 				if l, isList := v.([]string); isList && !listInvertible(l) {
